@@ -41,6 +41,7 @@ struct Knobs {
         double p_probe_ok = 0.3;
         double p_phases = 0.3;
         double p_long_run = 0.03;
+        double p_cbtrig = 0.0; // triggers issued from inside an io read / write callback
         double p_swarm = 0.0; // a table in which about 256 enabled commands share one prefix (8-bit candidate counters wrap)
         double p_pump = 0.01; // a few hundred events in one op (8-bit ring counters wrap)
         double p_marathon = 0.0; // more than 65536 accepted events (16-bit counters wrap)
@@ -850,8 +851,12 @@ struct Gen {
                                 x = (double)r.below(1000) / 1000.0;
                                 if (!evs.empty() && x < 0.35) {
                                         int burst = r.chance(0.3) ? (int)r.range(2, p.qcap + 3) : 1;
-                                        for (int b = 0; b < burst; b++)
-                                                op(OP_TRIG, evs[r.below(evs.size())], r.coin() ? CT_READ : CT_TEST);
+                                        for (int b = 0; b < burst; b++) {
+                                                if (r.chance(K.p_cbtrig))
+                                                        op(OP_TRIGCB, evs[r.below(evs.size())], r.coin() ? CT_READ : CT_TEST, (int64_t)r.below(2), r.chance(0.5) ? 0 : r.range(1, 12));
+                                                else
+                                                        op(OP_TRIG, evs[r.below(evs.size())], r.coin() ? CT_READ : CT_TEST);
+                                        }
                                         if (r.chance(0.5))
                                                 op(OP_SVC, r.range(0, K.max_svc_gap));
                                 } else if (x < 0.35 + K.p_hexit_ops) {
@@ -892,6 +897,89 @@ struct Gen {
                         }
                         op(OP_DRAIN);
                 }
+        }
+
+        // ------------------------------------------------------------ a held command that is an event source itself
+        // The command suspended by its own write handler also receives events while it waits, and the hold is released
+        // through the API or by its own event handlers at arbitrary moments of those events' units. The input never
+        // contains '?', so the command side emits result codes only and every unit stays attributable.
+        void gen_ops_hold_own()
+        {
+                int t = -1;
+                for (size_t i = 0; i < p.cmds.size() && t < 0; i++) {
+                        const CmdSpec &c = p.cmds[i];
+                        if (!c.ev && c.registered && !c.disable && !p.groups[(size_t)c.group].disable && !c.only_test && !c.implicit)
+                                t = (int)i;
+                }
+                if (t < 0) {
+                        gen_ops();
+                        return;
+                }
+                CmdSpec &c = p.cmds[(size_t)t];
+                c.name = "+HO" + rand_digits(4);
+                for (bool clash = true; clash;) {
+                        clash = false;
+                        for (size_t i = 0; i < p.cmds.size(); i++)
+                                clash |= (int)i != t && upper(p.cmds[i].name).compare(0, c.name.size(), upper(c.name)) == 0;
+                        if (clash)
+                                c.name += (char)('0' + r.below(10));
+                }
+                c.ev = 1;
+                c.need_all = false;
+                for (auto &v : c.vars)
+                        v.access = ACC_RO; // no line can change what its events print
+                c.h[K_RUN] = false;
+                c.script[K_RUN].clear();
+                c.h[K_WRITE] = true;
+                c.script[K_WRITE].clear();
+                Step hold;
+                hold.code = RC_HOLD;
+                c.script[K_WRITE].push_back(hold);
+                for (int k : {K_READ, K_TEST}) {
+                        c.h[k] = r.chance(0.6);
+                        c.script[k].clear();
+                        if (c.h[k])
+                                c.script[k] = gen_script(k, true, (int)c.vars.size(), std::max(2, p.ev_cap()));
+                }
+                ms.init(p);
+                std::vector<int> evs;
+                for (size_t i = 0; i < p.cmds.size(); i++)
+                        if (p.cmds[i].ev)
+                                evs.push_back((int)i);
+                if (r.chance(0.6))
+                        faults_maybe();
+                double keep = K.p_valid_args;
+                K.p_valid_args = 0.9;
+                int rounds = (int)r.range(1, 3);
+                for (int k = 0; k < rounds; k++) {
+                        bytes line = "AT" + mangle_case(c.name, 0.2) + "=" + gen_args_for(c);
+                        for (auto &ch : line)
+                                if (ch == '?' || ch == '\n' || ch == 0)
+                                        ch = '!';
+                        line += r.coin() ? "\r\n" : "\n";
+                        in_op(line);
+                        op(OP_SVC, (int64_t)line.size() + r.range(0, 12));
+                        int nev = (int)r.range(1, 4);
+                        for (int e = 0; e < nev; e++) {
+                                int who = r.chance(0.7) ? t : evs[r.below(evs.size())];
+                                if (r.chance(K.p_cbtrig))
+                                        op(OP_TRIGCB, who, r.coin() ? CT_READ : CT_TEST, (int64_t)r.below(2), r.range(0, 6));
+                                else
+                                        op(OP_TRIG, who, r.coin() ? CT_READ : CT_TEST);
+                                op(OP_SVC, r.range(0, 14));
+                                if (r.chance(0.4)) {
+                                        op(OP_HEXIT, (int64_t)r.below(2));
+                                        op(OP_SVC, r.range(0, 10));
+                                }
+                                if (r.chance(0.2))
+                                        faults_maybe();
+                        }
+                        op(OP_HEXIT, (int64_t)r.below(2));
+                        op(OP_SVC, r.range(0, 30));
+                        op(OP_QUIESCE, 200000);
+                }
+                K.p_valid_args = keep;
+                op(OP_DRAIN);
         }
 
         void in_op(const bytes &data)
@@ -1431,7 +1519,7 @@ struct Gen {
                         p.groups[0].disable = false;
                         // indices shifted by one: remap ops and script actions
                         for (auto &o : p.ops) {
-                                if (o.kind == OP_TRIG || o.kind == OP_QBUF || o.kind == OP_SETVAR || o.kind == OP_ROUNDTRIP)
+                                if (o.kind == OP_TRIG || o.kind == OP_QBUF || o.kind == OP_SETVAR || o.kind == OP_ROUNDTRIP || o.kind == OP_TRIGCB || o.kind == OP_PUMP)
                                         o.a++;
                                 else if (o.kind == OP_FLAG && o.a == 0)
                                         o.b++;
@@ -1600,6 +1688,8 @@ void knobs_for(const std::string &prop, Knobs &K, Rng &r)
                 K.p_giant = 0.0;
         if (prop == "C16" || prop == "C17" || prop == "C12" || prop == "C20" || prop == "C07" || prop == "C08")
                 K.p_pump = 0.0;
+        if (prop == "C15" || prop == "C18" || prop == "C13" || prop == "C11" || prop == "C14" || prop == "C10" || prop == "C03")
+                K.p_cbtrig = 0.15;
         (void)r;
 }
 
@@ -1645,6 +1735,8 @@ Plan gen_plan(const std::string &prop, uint64_t seed, uint64_t idx, int qcap)
                         g.gen_ops_c14_enum(idx % 128);
                 else if (c18e)
                         g.gen_ops_c18_enum(idx % 64);
+                else if ((prop == "C18" || prop == "C14" || prop == "C13") && mix_seed(seed ^ ph, idx * 7919 + 3) % 12 == 0)
+                        g.gen_ops_hold_own();
                 else if (prop == "C12")
                         g.gen_ops_c12();
                 else if (prop == "C20")
